@@ -86,7 +86,14 @@ func c10W64(v uint64) [4]int {
 	return [4]int{int(v >> 48 & 0xffff), int(v >> 32 & 0xffff), int(v >> 16 & 0xffff), int(v & 0xffff)}
 }
 func c10W32(v uint32) [2]int { return [2]int{int(v >> 16), int(v & 0xffff)} }
+
+// c10Cap bounds what is logged when the code under test reports garbage (far above any well-formed case of this harness).
+const c10Cap = 300
+
 func c10Ints(b []byte) []int {
+	if len(b) > 4*c10Cap {
+		b = b[:4*c10Cap]
+	}
 	out := make([]int, len(b))
 	for i, x := range b {
 		out[i] = int(x)
@@ -292,7 +299,7 @@ func c10Observe(addr uintptr) c10Ev {
 		VisitMemRegions(func(e *MemoryMapEntry) bool {
 			regs = append(regs, c10Ev{"a": c10W64(e.PhysAddress), "l": c10W64(e.Length), "t": c10W32(uint32(e.Type))})
 			n++
-			return n < 100000
+			return n < c10Cap // (well-formed blocks of this harness hold at most 64 entries)
 		})
 	})
 
@@ -322,6 +329,9 @@ func c10Observe(addr uintptr) c10Ev {
 			keys = append(keys, k)
 		}
 		sort.Strings(keys)
+		if len(keys) > c10Cap {
+			keys = keys[:c10Cap]
+		}
 		for _, k := range keys {
 			kv = append(kv, [2][]int{c10Ints([]byte(k)), c10Ints([]byte(m[k]))})
 		}
@@ -331,6 +341,9 @@ func c10Observe(addr uintptr) c10Ev {
 	secs := []c10Ev{}
 	elfRes := c10Guarded(func() {
 		VisitElfSections(func(name string, flags ElfSectionFlag, address uintptr, size uint64) {
+			if len(secs) >= c10Cap {
+				return
+			}
 			secs = append(secs, c10Ev{"n": c10Ints([]byte(name)), "fl": c10W32(uint32(flags)), "ad": c10W64(uint64(address)), "sz": c10W64(size)})
 		})
 	})
@@ -359,6 +372,12 @@ type c10Job struct {
 	Case c10Case `json:"case"`
 }
 
+func c10CPU() time.Duration {
+	var ru syscall.Rusage
+	syscall.Getrusage(syscall.RUSAGE_SELF, &ru)
+	return time.Duration(ru.Utime.Nano() + ru.Stime.Nano())
+}
+
 func c10DeadObs(res string) c10Ev {
 	return c10Ev{"mm": c10Ev{"res": res, "regs": []int{}}, "fb": c10Ev{"res": res, "present": false},
 		"cmd": c10Ev{"res": res, "kv": []int{}}, "elf": c10Ev{"res": res, "secs": []int{}}}
@@ -383,6 +402,9 @@ func TestVerifC10Child(t *testing.T) {
 		t.Fatal(err)
 	}
 	defer out.Close()
+	// a decoder working on garbage may ask for gigabytes or spin: bound the child, the parent logs its death
+	syscall.Setrlimit(9 /* RLIMIT_AS */, &syscall.Rlimit{Cur: 3 << 30, Max: 3 << 30})
+	syscall.Setrlimit(syscall.RLIMIT_CPU, &syscall.Rlimit{Cur: 300, Max: 300})
 	block := c10NewArena(t, 16)
 	var strtab []*c10Arena
 	for i := range jobs {
@@ -401,14 +423,23 @@ func TestVerifC10Child(t *testing.T) {
 		}()
 		var obs c10Ev
 		hang := false
-		wd := time.NewTimer(20 * time.Second)
-		select {
-		case obs = <-done:
-		case <-wd.C:
-			hang = true
-			obs = c10DeadObs("hang")
+		cpu0 := c10CPU()
+		tick := time.NewTicker(50 * time.Millisecond)
+	wait:
+		for {
+			select {
+			case obs = <-done:
+				break wait
+			case <-tick.C:
+				// non-termination is decided by CPU time, not wall clock (the machine may be busy)
+				if c10CPU()-cpu0 > 3*time.Second {
+					hang = true
+					obs = c10DeadObs("hang")
+					break wait
+				}
+			}
 		}
-		wd.Stop()
+		tick.Stop()
 		line, _ := json.Marshal(c10Ev{"k": "decode", "leg": jobs[i].Leg, "blk": c10Abstract(c), "padb": c.Padb, "total": len(bytes), "obs": obs})
 		out.Write(append(line, '\n')) // unbuffered: the parent counts these lines when we die
 		if hang {
@@ -440,7 +471,7 @@ func c10RunIsolated(t *testing.T, env string, jobs []c10Job) {
 	defer os.Remove(in)
 	defer os.Remove(outp)
 	n, dead := 0, 0
-	for len(jobs) > 0 && dead < 20 {
+	for len(jobs) > 0 && dead < 6 {
 		raw, _ := json.Marshal(jobs)
 		if err := os.WriteFile(in, raw, 0644); err != nil {
 			t.Fatal(err)
